@@ -245,12 +245,49 @@ end:
   snprintf(desc, dsz, "scen%d rc%d rc2%d n%ld failed%ld %s", scen, rc, rc2, c14_count, c14_failed, es);
 }
 
+/* third part of the catalogue (scenarios 25, 26): call sequences on ONE decompression / transformation instance over images with and
+   without an ICC profile - the profile extracted by a header read is held by the instance until it is collected, replaced or the instance is
+   destroyed, whatever comes in between */
+static void c14_scenario3(int scen, unsigned long long seed, char *desc, size_t dsz)
+{
+  static unsigned char img[48 * 40 * 3], out[64 * 64 * 4], prof[5000]; unsigned char *plain = NULL, *withicc = NULL, *icc = NULL, *d2 = NULL; size_t np = 0, ni = 0, iccn = 0, n2 = 0;
+  tjhandle h0, hd = NULL; int i, rc = 0, rc2 = 0, steps = scen == 25 ? 2 : 3 + (int)(seed % 6ULL); unsigned long long rs = seed * 0x9E3779B97F4A7C15ULL + 7ULL; char hist[64] = ""; long f1 = c14_fail1, f2 = c14_fail2;
+  c14_armed = 0;
+  for (i = 0; i < (int)sizeof(img); i++) img[i] = (unsigned char)(c03_mix(seed + (unsigned long long)i) & 255ULL);
+  for (i = 0; i < (int)sizeof(prof); i++) prof[i] = (unsigned char)(i * 11 + 3);
+  h0 = tj3Init(TJINIT_COMPRESS); tj3Set(h0, TJPARAM_SUBSAMP, TJSAMP_420); tj3Set(h0, TJPARAM_QUALITY, 80);
+  tj3Compress8(h0, img, 48, 0, 40, TJPF_RGB, &plain, &np);
+  tj3SetICCProfile(h0, prof, 1 + (size_t)(seed % 4999ULL)); tj3Compress8(h0, img, 48, 0, 40, TJPF_RGB, &withicc, &ni);
+  tj3Destroy(h0);
+  c14_fail1 = f1; c14_fail2 = f2; c14_armed = 1;
+  hd = tj3Init(scen == 25 ? TJINIT_DECOMPRESS : TJINIT_TRANSFORM);
+  if (hd) {
+    for (i = 0; i < steps; i++) {
+      int k = scen == 25 ? i : (int)((rs = c03_mix(rs)) % 7ULL); size_t l = strlen(hist);
+      if (l + 2 < sizeof(hist)) { hist[l] = (char)('0' + k); hist[l + 1] = 0; }
+      switch (k) {
+      case 0: rc = tj3DecompressHeader(hd, withicc, ni); break;
+      case 1: rc = tj3DecompressHeader(hd, plain, np); break;
+      case 2: rc = tj3Decompress8(hd, withicc, ni, out, 0, TJPF_RGB); break;
+      case 3: rc = tj3Decompress8(hd, plain, np, out, 0, TJPF_BGRX); break;
+      case 4: icc = NULL; iccn = 0; rc2 = tj3GetICCProfile(hd, &icc, &iccn); tj3Free(icc); break;
+      case 5: tj3Set(hd, TJPARAM_SAVEMARKERS, (int)((rs >> 9) % 5ULL)); break;
+      default: if (scen == 26) { tjtransform xf; memset(&xf, 0, sizeof(xf)); xf.op = (int)((rs >> 5) % 8ULL); xf.options = TJXOPT_TRIM; d2 = NULL; n2 = 0; rc = tj3Transform(hd, (rs >> 13) & 1ULL ? withicc : plain, (rs >> 13) & 1ULL ? ni : np, 1, &d2, &n2, &xf); tj3Free(d2); } break;
+      }
+    }
+    tj3Destroy(hd);
+  }
+  c14_armed = 0;
+  tj3Free(plain); tj3Free(withicc);
+  snprintf(desc, dsz, "scen%d rc%d rc2%d n%ld failed%ld hist %s", scen, rc, rc2, c14_count, c14_failed, hist);
+}
+
 /* afail scen seed k1 k2 */
 static int c14_afail(toks_t *t)
 {
   int scen = (int)tl(t, 1); unsigned long long seed = (unsigned long long)tll(t, 2); long k1 = tl(t, 3), k2 = tl(t, 4); char desc[300]; int i; size_t leaked = 0;
   c14_reset(k1, k2);
-  if (scen >= 16) c14_scenario2(scen, seed, desc, sizeof(desc)); else c14_scenario(scen, seed, desc, sizeof(desc));
+  if (scen >= 25) c14_scenario3(scen, seed, desc, sizeof(desc)); else if (scen >= 16) c14_scenario2(scen, seed, desc, sizeof(desc)); else c14_scenario(scen, seed, desc, sizeof(desc));
   printf("R skip %s\n", desc);
   for (i = 0; i < c14_nlive; i++) leaked += c14_live[i].n;
   if (c14_overflow) printf("O ok\n");
